@@ -18,7 +18,7 @@ VERIF = os.path.dirname(os.path.dirname(os.path.abspath(__file__)))
 HARNESS = os.path.join(VERIF, "harness")
 WORK = os.path.join(VERIF, "work")
 TARGET = os.path.join(WORK, "target")
-EVIDENCE = os.path.join(VERIF, "evidence")
+EVIDENCE = os.environ.get("VERIF_EVIDENCE_DIR") or os.path.join(VERIF, "evidence")
 KNOWN = os.path.join(VERIF, "known_findings.json")
 NPROC = int(os.environ.get("VERIF_JOBS", "16"))
 
@@ -43,9 +43,34 @@ def cargo_env():
     return env
 
 
+def _alt_repo():
+    """Testing aid (seed matrix): VERIF_REPO=<dir> points the driver at a scratch copy of the
+    repository instead of /repo, through a private copy of the harness and its own target dir.
+    The registered checks never set it."""
+    global HARNESS, TARGET
+    alt = os.environ.get("VERIF_REPO")
+    if not alt or alt == "/repo":
+        return
+    tag = "alt-" + hashlib.blake2b(alt.encode(), digest_size=4).hexdigest()
+    h2 = os.path.join(WORK, tag, "harness")
+    if HARNESS == h2:
+        return
+    shutil.rmtree(h2, ignore_errors=True)
+    shutil.copytree(os.path.join(VERIF, "harness"), h2, ignore=shutil.ignore_patterns("target"))
+    for root, _, files in os.walk(h2):
+        for f in files:
+            if f == "Cargo.toml":
+                pth = os.path.join(root, f)
+                txt = open(pth).read().replace('"/repo/', '"' + alt.rstrip("/") + "/")
+                open(pth, "w").write(txt)
+    HARNESS = h2
+    TARGET = os.path.join(WORK, tag, "target")
+
+
 def build_driver(profile="mon", quiet=True):
     """Build celmon from /repo's *current working tree* (path dependency). Returns binary path."""
     os.makedirs(WORK, exist_ok=True)
+    _alt_repo()
     lock = os.path.join(WORK, "build.lock")
     import fcntl
     with open(lock, "w") as lf:
